@@ -1,13 +1,17 @@
 package drivers
 
 import (
+	"bytes"
 	"context"
 	"fmt"
 	"os"
 	"os/exec"
+	"os/signal"
 	"path/filepath"
 	"sync/atomic"
+	"syscall"
 	"time"
+	"verif/harness/model"
 
 	"github.com/tonistiigi/fsutil"
 	"github.com/tonistiigi/fsutil/types"
@@ -16,7 +20,94 @@ import (
 	"verif/harness/vt"
 )
 
-func init() { childRoles["recv-child"] = recvChild }
+func init() {
+	childRoles["recv-child"] = recvChild
+	childRoles["recv-child-fsize"] = recvChildFsize
+}
+
+// recvChildFsize: a metadata-only receiver (nothing selected: the listing is the only file it writes) in a process whose
+// file-size limit is args[1] bytes; SIGXFSZ is ignored so that the write fails with EFBIG.  Exit status 0 = Receive succeeded.
+func recvChildFsize(args []string) {
+	var lim uint64
+	fmt.Sscan(args[1], &lim)
+	signal.Ignore(syscall.SIGXFSZ)
+	rl := syscall.Rlimit{Cur: lim, Max: lim}
+	if err := syscall.Setrlimit(syscall.RLIMIT_FSIZE, &rl); err != nil {
+		fmt.Fprintln(os.Stderr, "setrlimit:", err)
+		os.Exit(3)
+	}
+	ctx := context.Background()
+	s := util.NewProtoStream(ctx, os.Stdin, os.Stdout)
+	err := fsutil.Receive(ctx, s, args[0], fsutil.ReceiveOpt{MetadataOnly: func(string, *types.Stat) bool { return false }})
+	if err != nil {
+		fmt.Fprintln(os.Stderr, "receive:", err)
+		os.Exit(1)
+	}
+}
+
+// runListingFault: real Send against recv-child-fsize; the listing of the view does not fit the limit.  One event.
+func runListingFault(c *Ctx, caseNo int, src model.Tree, limit int) (vt.Ev, error) {
+	base := filepath.Join(c.Work, fmt.Sprintf("lcase%d", caseNo))
+	srcDir, dst := filepath.Join(base, "src"), filepath.Join(base, "dst")
+	defer disk.RemoveAll(base)
+	for _, d := range []string{srcDir, dst} {
+		if err := os.MkdirAll(d, 0755); err != nil {
+			return nil, err
+		}
+	}
+	if err := disk.Materialise(srcDir, src); err != nil {
+		return nil, err
+	}
+	self, err := os.Executable()
+	if err != nil {
+		return nil, err
+	}
+	cmd := exec.Command(self, "recv-child-fsize", dst, fmt.Sprint(limit))
+	toChild, err := cmd.StdinPipe()
+	if err != nil {
+		return nil, err
+	}
+	fromChild, err := cmd.StdoutPipe()
+	if err != nil {
+		return nil, err
+	}
+	var stderr bytes.Buffer
+	cmd.Stderr = &stderr
+	if err := cmd.Start(); err != nil {
+		return nil, err
+	}
+	ctx, cancel := context.WithCancel(context.Background())
+	defer cancel()
+	fs, err := fsutil.NewFS(srcDir)
+	if err != nil {
+		return nil, err
+	}
+	done := make(chan error, 1)
+	go func() {
+		err := fsutil.Send(ctx, util.NewProtoStream(ctx, fromChild, toChild), fs, nil)
+		toChild.Close() // the sender's end of the stream goes away once Send has returned
+		done <- err
+	}()
+	waitErr := make(chan error, 1)
+	go func() { waitErr <- cmd.Wait() }()
+	recvOK, childReturned := false, false
+	select {
+	case err := <-waitErr:
+		childReturned = true
+		recvOK = err == nil
+	case <-time.After(20 * time.Second):
+		cmd.Process.Kill()
+	}
+	toChild.Close()
+	cancel()
+	select {
+	case <-done:
+	case <-time.After(5 * time.Second):
+	}
+	present, framingOK, recs := decodeListing(filepath.Join(dst, listingName))
+	return vt.Ev{"ev": "ListingFault", "case": caseNo, "limit": limit, "entries": len(src), "recvOK": recvOK, "childReturned": childReturned,
+		"listingPresent": present, "listingComplete": present && framingOK && len(recs) == len(src), "childErr": trunc(stderr.String())}, nil
+}
 
 // recvChild: the receiving PROCESS.  args: <dest>.  Speaks the length-prefixed stream of
 // util.NewProtoStream on stdin/stdout.
